@@ -216,7 +216,11 @@ def oracle(ctx, obs):
                 bad.append(("jsi_normalized", k, in_, jsi / ri))
             if not close(sn, sing / rs):
                 bad.append(("jsi_singles_normalized", k, sn, sing / rs))
-            if not close(in_, abs(jn) ** 2, tol=4e-12):
+            if abs(jsa) ** 2 < 1e-290 or abs(jn) ** 2 < 1e-290:
+                # |raw amplitude|^2 underflows towards the subnormal range: the square loses digits in binary64 (measured 5e-10 at
+                # 7.6e-289); the identity is exact over the reals (C20_square) and is compared only away from underflow
+                ctx.count("square_identity_skipped_underflow")
+            elif not close(in_, abs(jn) ** 2, tol=4e-12):
                 bad.append(("jsi_normalized = |jsa_normalized|^2", k, in_, abs(jn) ** 2))
         rg = sp["range"]
         ng = sp["ngrid"]
@@ -273,6 +277,10 @@ def oracle(ctx, obs):
                     ctx.violation("S5", f"sweep: raw value {raw[k]!r} differs from the JSI at the centre of the individually built setup {per[k]!r}",
                                   {"kind": "sweep_raw"}, dict(detail, k=k))
                     break
+        elif swp and cc.error_class(swp.get("msg", "")) == "err:impossible_period" and str(swp.get("loc", "")).startswith("src/jsa/joint_spectrum.rs"):
+            # one of the swept setups has no optimum (its crystal is shorter than the period it needs) and JointSpectrum::new unwraps
+            # try_as_optimum: the known C17 finding F7d, not a statement about normalisation
+            ctx.count("sweep_panic_left_to_C17_F7d")
         elif swp:
             ctx.violation("S5", f"sweep calls panic: {swp.get('msg', '')[:120]} at {swp.get('loc')}", {"kind": "sweep_panic"}, dict(detail, sweep=swp))
 
